@@ -49,6 +49,37 @@ def sample_lines(src, dst, n, seed):
     return total, len(lines)
 
 
+def _run_harness(ctx, prop, run, env, timeout, leg, trace_path):
+    """Run a pmm harness under the hang guard.  A call of the real allocator that does not return (decided by CPU time)
+    is a violation of C02/C03 ("never crashes", every call returns a frame or an error); the events recorded before it
+    are still validated."""
+    pend = os.path.join(ctx.work, "pending_%s.rec" % leg)
+    rc, out, _ = ctx.gotest("kernel", "mm/pmm", HARNESS, run, env=env, timeout=timeout,
+                            hang_guard={"pending": pend, "cpu_s": 60})
+    if rc == -9:
+        h = ctx.last_hang
+        tail = []
+        try:
+            with open(trace_path) as f:
+                lines = f.readlines()
+            # drop a possibly half-written last line, close the open case so that the monitor accepts the prefix
+            lines = [l for l in lines if l.endswith("\n")]
+            tail = [json.loads(l) for l in lines[-6:]]
+            with open(trace_path, "w") as f:
+                f.writelines(lines)
+                f.write(json.dumps({"k": "reset"}) + "\n")
+        except Exception:
+            pass
+        if prop in ("C02", "C03"):
+            ctx.violation({"leg": leg, "mismatch": [0, prop, ["a call of the allocator did not return", h]], "last_events": tail},
+                          {"mode": "hang", "pending": h, "last_events": tail})
+        else:
+            ctx.note("a call of the allocator did not return (%s); judged by C02/C03, not by %s" % (json.dumps(h), prop))
+        return
+    if rc != 0:
+        raise vlib.Broken("pmm harness %s failed:\n%s" % (run, out[-3000:]))
+
+
 def run_pmm(ctx, prop):
     boot = prop == "C02"
     mode = "boot" if boot else "main"
@@ -87,25 +118,16 @@ def run_pmm(ctx, prop):
     ctx.cov["legs"]["emit-cases"]["replayed"] = used
     traces = []
     tr = os.path.join(ctx.work, "trace_g.ndjson")
-    rc, out, _ = ctx.gotest("kernel", "mm/pmm", HARNESS, "TestVerifPmmCases",
-                            env={"CASES": gcases, "TRACE_OUT": tr, "VERIF_PMM_MODE": mode}, timeout=900)
-    if rc != 0:
-        raise vlib.Broken("pmm case harness failed:\n" + out[-3000:])
+    _run_harness(ctx, prop, "TestVerifPmmCases", {"CASES": gcases, "TRACE_OUT": tr, "VERIF_PMM_MODE": mode}, 900, "G-init", tr)
     traces.append(("G-init", tr))
     if not boot:
         tr2 = os.path.join(ctx.work, "trace_gh.ndjson")
-        rc, out, _ = ctx.gotest("kernel", "mm/pmm", HARNESS, "TestVerifPmmCases",
-                                env={"CASES": hist_cases, "TRACE_OUT": tr2, "VERIF_PMM_MODE": mode}, timeout=900)
-        if rc != 0:
-            raise vlib.Broken("pmm case harness failed:\n" + out[-3000:])
+        _run_harness(ctx, prop, "TestVerifPmmCases", {"CASES": hist_cases, "TRACE_OUT": tr2, "VERIF_PMM_MODE": mode}, 900, "G-hist", tr2)
         traces.append(("G-hist", tr2))
     # ---- leg T: random maps and histories at real scale
     tr3 = os.path.join(ctx.work, "trace_t.ndjson")
     n = (250 if q else 5000) if boot else (100 if q else 3000)
-    rc, out, _ = ctx.gotest("kernel", "mm/pmm", HARNESS, "TestVerifPmmRandom",
-                            env={"TRACE_OUT": tr3, "NTRACES": n, "VERIF_PMM_MODE": mode}, timeout=400)
-    if rc != 0:
-        raise vlib.Broken("pmm random harness failed:\n" + out[-3000:])
+    _run_harness(ctx, prop, "TestVerifPmmRandom", {"TRACE_OUT": tr3, "NTRACES": n, "VERIF_PMM_MODE": mode}, 400, "T-random", tr3)
     traces.append(("T-random", tr3))
 
     # ---- leg V: the TLA+ monitor judges every recorded event
